@@ -101,6 +101,18 @@ class C07(Prop):
     def gen(self, rng, tier):
         k = 1 if tier == "quick" else 6
         cases = [self._case(rng) for _ in range(320 * k)]
+        # every transform after statistics / a bandpass computed on ANOTHER range of the same length on the same
+        # reader (state left on the reader must not leak into the transform)
+        for op in ("invert", "mask", "chans", "bands", "downsample", "subband", "zerodm", "zerodm", "zerodm"):
+            for _ in range(k):
+                c = self._case(rng, op)
+                N = max(c["N"], 12)
+                n = rng.randint(3, N // 2)
+                s = rng.randint(1, N - n)
+                s2 = rng.choice([x for x in range(0, N - n + 1) if x != s])
+                c.update(N=N, splits=[N], s=s, n=n, none_n=False, g=rng.choice((2, 3, 5, n)),
+                         pre=[[rng.choice(("stats", "stats", "bandpass", "stats_basic")), s2, n, rng.choice((1, 3, 64))]])
+                cases.append(c)
         # decimation by a product that is not a power of two, on data whose group means are exact integers
         for _ in range(6 * k):
             c = self._case(rng, "downsample")
